@@ -175,7 +175,13 @@ def validate0_case(ctx, frame, newcrc):
 
     def outcome(buf):
         try:
-            m = RTCMReader.parse(buf, 0, 2 - (frame[-1] & 1)) if frame[-2] & 1 else RTCMReader.parse(buf, validate=0)
+            if frame[-2] & 1:
+                try:
+                    m = RTCMReader.parse(buf, 0, 2 - (frame[-1] & 1))  # documented positional order
+                except TypeError:  # (a keyword-only signature is no checksum matter)
+                    m = RTCMReader.parse(buf, validate=0, labelmsm=2 - (frame[-1] & 1))
+            else:
+                m = RTCMReader.parse(buf, validate=0)
             return ("ok", m.identity, m.payload, refmodel.public_attrs(m), m.serialize(), str(m), repr(m))
         except libs as e:
             return ("err", type(e).__name__)
